@@ -851,12 +851,17 @@ func (c *control) dirInt(colon, at bool, params []any, base int) {
 	default:
 		neg = true // stops @ addition of a +
 		colon = false
+		// Not an integer, printed as by ~A in decimal.
 		p := *slip.DefaultPrinter()
 		p.ScopedUpdate(c.scope)
-		p.Escape = true
-		p.Readably = true
+		p.Escape = false
+		p.Readably = false
 		p.Base = 10
-		out = p.Append(nil, ta, 0)
+		if ss, ok := ta.(slip.String); ok {
+			out = []byte(ss)
+		} else {
+			out = p.Append(nil, ta, 0)
+		}
 	}
 	if at && !neg {
 		out = append([]byte{'+'}, out...)
